@@ -89,7 +89,6 @@ var edgeTable = map[string][]any{
 	"action_sets.actions.value":              {"", absent},
 	"action_sets.actions.name":               {"", absent},
 	"action_sets.actions.recording":          {nil, absent, map[string]any{}},
-	"action_sets.actions.msg.fra":            {"", absent},
 	"metadata.expires":                       numberEdges,
 	"metadata.revision":                      numberEdges,
 	"metadata.name":                          {"", absent, longText},
@@ -110,6 +109,9 @@ func edgeTweak(r *hx.Rand, flow map[string]any) string {
 			if s.path == "flow_type" && str(flow["flow_type"]) == "V" {
 				continue // a voice flow without its type is a messaging flow with voice actions: never a valid definition
 			}
+			if strings.HasPrefix(s.path, "rule_sets.rules.category") && flow["\x00category-tweaked"] != nil {
+				continue // one category edit per definition: two could give two rules of one rule set the same name
+			}
 			cands = append(cands, s)
 		}
 	}
@@ -118,6 +120,9 @@ func edgeTweak(r *hx.Rand, flow map[string]any) string {
 	}
 	s := cands[r.Intn(len(cands))]
 	nv := hx.Pick(r, edgeTable[s.path])
+	if strings.HasPrefix(s.path, "rule_sets.rules.category") {
+		flow["\x00category-tweaked"] = true
+	}
 	if nv == absent {
 		delete(s.parent, s.key)
 		return s.path + ":removed"
@@ -199,6 +204,7 @@ func genLegacyEdge(r *hx.Rand, p *legacyPools) (*ldef, []string) {
 	for k, n := 0, r.Range(0, 2); k < n || len(how) == 0; k++ {
 		how = append(how, edgeTweak(r, f))
 	}
+	delete(f, "\x00category-tweaked")
 	d := &ldef{Flow: f}
 	lg := legacyGraphOf(f)
 	d.Nodes = lg.Nodes
